@@ -207,8 +207,9 @@ theorem usageDiags_nil_iff (v : String) (g : Cfg) (i : Nat) (s : RegSet) :
     nothing exactly when all eleven trigger conditions are absent. -/
 theorem lints_silent_iff (g : Cfg) :
     runLints g = [] ↔
-      -- 1 no computation targets the zero register
-      (∀ cn ∈ g.nodes.toList, ∀ rd, cn.node.writesTo = some rd → rd.val = 0 → cn.node.canSkipSaveChecks = true) ∧
+      -- 1 no computation targets the zero register (other than a `nop`)
+      (∀ cn ∈ g.nodes.toList, ∀ rd, cn.node.writesTo = some rd → rd.val = 0 →
+        cn.node.canSkipSaveChecks = true ∨ cn.node.isNop = true) ∧
       -- 2 no dead assignment, no use of a caller-saved register after a call
       (∀ i, i < g.nodes.size → (∀ d, ¬ DeadAssign g i d) ∧
         (∀ f nm, callsToFromCfg g (g.get i) = some (f, nm) →
